@@ -304,6 +304,12 @@ Definition rawsel (q : request) : str := if is_nil (q_rawpath q) then q_path q e
 Definition carried_query (tq : str) (q : request) : str :=
   if is_nil tq && negb (is_nil (q_query q)) then q_query q else tq.
 
+(* the URL BuildRedirectURL leaves for a template  HOST pre $path post *)
+Definition built (sc hp pre post tq st pp : str) (q : request) : url :=
+  let path := pre ++ (pp ++ trim_prefix (q_path q) st) ++ post in
+  mkUrl sc (replace_first hp v_host (q_host q)) (if is_nil path then [47] else path)
+        (pre ++ (pp ++ trim_prefix (rawsel q) st) ++ post) (carried_query tq q).
+
 Lemma strip_step (st a b : str) :
   (if negb (is_nil st)
    then (if has_prefix a st then skipn (length st) a else a, if has_prefix b st then skipn (length st) b else b)
@@ -318,11 +324,9 @@ Lemma build_shape id sc hp pre slash post tq st pp code q :
   has_suffix hp v_path = false ->
   no_dollar pre = true -> no_dollar post = true -> (slash = false -> ends_slash pre = false) ->
   build_redirect_url (mkTarget id sc hp (pre ++ sl slash ++ v_path ++ post) tq st pp code) q =
-  let path := pre ++ (pp ++ trim_prefix (q_path q) st) ++ post in
-  mkUrl sc (replace_first hp v_host (q_host q)) (if is_nil path then [47] else path)
-        (pre ++ (pp ++ trim_prefix (rawsel q) st) ++ post) (carried_query tq q).
+  built sc hp pre post tq st pp q.
 Proof.
-  intros Hsuf Hpre Hpost Hsl. unfold build_redirect_url.
+  intros Hsuf Hpre Hpost Hsl. unfold built, build_redirect_url.
   cbn [t_host t_path t_query t_strip t_prepend t_scheme]. rewrite Hsuf. cbv beta iota.
   match goal with |- context [if contains ?a v_slash_path then ?x else ?y] =>
     replace (if contains a v_slash_path then x else y) with (pre ++ v_path ++ post, pre ++ v_path ++ post) end.
@@ -336,13 +340,29 @@ Proof.
   rewrite !(replace_vpath pre post _ Hpre). rewrite replace_if_contains. reflexivity.
 Qed.
 
-(* scheme://HOST$path *)
+(* scheme://HOST$path : after fix e4368b6 both tracks carry the placeholder *)
 Lemma build_adjacent id sc hp tq st pp code q :
-  build_redirect_url (mkTarget id sc (hp ++ v_path) [] tq st pp code) q =
+  build_redirect_url (mkTarget id sc (hp ++ v_path) [] tq st pp code) q = built sc hp [] [] tq st pp q.
+Proof.
+  unfold built, build_redirect_url. cbn [t_host t_path t_query t_strip t_prepend t_scheme].
+  assert (has_suffix (hp ++ v_path) v_path = true) as -> by (apply has_suffix_spec; now exists hp).
+  assert (firstn (length (hp ++ v_path) - length v_path) (hp ++ v_path) = hp) as ->.
+  { rewrite app_length, Nat.add_sub. apply firstn_len_app. }
+  cbv beta iota.
+  change (contains v_path v_slash_path) with false. cbv beta iota.
+  change (contains v_path v_path) with true. cbv beta iota.
+  fold (rawsel q). rewrite strip_step, prepend_step.
+  assert (forall x, replace_first v_path v_path x = x) as Hr.
+  { intros x. unfold replace_first. change (index v_path v_path) with (Some O). cbn. apply app_nil_r. }
+  rewrite !Hr. rewrite replace_if_contains. cbn [app]. rewrite !app_nil_r. reflexivity.
+Qed.
+(* before the fix the raw track stayed empty *)
+Lemma build_adjacent_unrepaired id sc hp tq st pp code q :
+  build_redirect_url_unrepaired (mkTarget id sc (hp ++ v_path) [] tq st pp code) q =
   let path := pp ++ trim_prefix (q_path q) st in
   mkUrl sc (replace_first hp v_host (q_host q)) (if is_nil path then [47] else path) [] (carried_query tq q).
 Proof.
-  unfold build_redirect_url. cbn [t_host t_path t_query t_strip t_prepend t_scheme].
+  unfold build_redirect_url_unrepaired. cbn [t_host t_path t_query t_strip t_prepend t_scheme].
   assert (has_suffix (hp ++ v_path) v_path = true) as -> by (apply has_suffix_spec; now exists hp).
   assert (firstn (length (hp ++ v_path) - length v_path) (hp ++ v_path) = hp) as ->.
   { rewrite app_length, Nat.add_sub. apply firstn_len_app. }
@@ -470,16 +490,12 @@ Section Location.
   Local Notation expected := (expected_str sc hp pp st tq qy h ts).
 
 
-  (* scheme://HOST/pre[/]$path post  : the raw request path is kept *)
-  Lemma location_shape :
-    has_suffix hp v_path = false ->
-    plain pre = true -> no_dollar pre = true -> plain post = true -> no_dollar post = true ->
-    (slash = false -> ends_slash pre = false) ->
-    url_string (build_redirect_url (mkTarget id sc hp (pre ++ sl slash ++ v_path ++ post) tq st pp code) q)
-    = expected pre post.
+  (* the raw request path is kept in the URL built for  HOST pre $path post *)
+  Lemma location_built :
+    plain pre = true -> plain post = true ->
+    url_string (built sc hp pre post tq st pp q) = expected pre post.
   Proof.
-    intros Hsuf Hpre Hpre' Hpost Hpost' Hsl.
-    rewrite (build_shape id sc hp pre slash post tq st pp code q Hsuf Hpre' Hpost' Hsl). cbv zeta.
+    intros Hpre Hpost. unfold built. cbv zeta.
     destruct (set_path_tokens ts d r Hts Hparse) as [Hd Hr]. subst d.
     destruct (trim_tokens st ts Hst Hts Hcons) as (ts' & Hok' & Hraw & Hdec & Hesc).
     cbn [q_path q_host]. rewrite Hdec, carried_query_eq.
@@ -525,41 +541,6 @@ Section Location.
         apply escaped_path_raw; auto.
   Qed.
 
-  (* scheme://HOST$path : only the decoded track exists; right when the request path is in
-     the default encoding (RawPath empty) *)
-  Lemma location_adjacent_on_domain :
-    r = [] ->
-    url_string (build_redirect_url (mkTarget id sc (hp ++ v_path) [] tq st pp code) q) = expected [] [].
-  Proof.
-    intros Hr0. rewrite build_adjacent. cbv zeta.
-    destruct (set_path_tokens ts d r Hts Hparse) as [Hd Hr]. subst d.
-    destruct Hr as [[_ He]|[Hr1 Hr2]]; [|congruence].
-    destruct (trim_tokens st ts Hst Hts Hcons) as (ts' & Hok' & Hraw & Hdec & Hesc).
-    cbn [q_path q_host]. rewrite Hdec, carried_query_eq.
-    unfold expected_str. rewrite Hraw. cbn [app]. rewrite app_nil_r.
-    assert (Hhost := host_plain_replace hp h Hhp_plain Hh_plain).
-    assert (Hne := replace_nonempty hp h Hhp Hh).
-    assert (forallb (fun c => negb (memb c lax7)) (pp ++ decode ts') = true) as Hlax.
-    { rewrite <- (decode_lit pp), <- decode_app. apply decode_no_lax.
-      now rewrite forallb_app, (ok_lit pp Hpp), Hok'. }
-    assert (escape (pp ++ decode ts') EncPath = pp ++ render ts') as Hesc'.
-    { now rewrite escape_app, (escape_plain pp Hpp), (Hesc He). }
-    destruct (is_nil (pp ++ decode ts')) eqn:En.
-    - apply is_nil_true in En. apply app_eq_nil in En as [-> En].
-      destruct ts' as [|t ts']; [|discriminate En]. cbn [app render flat_map]. rewrite norm_path_nil.
-      rewrite (url_string_shape sc _ [47] _ _ [47]); auto; discriminate.
-    - apply is_nil_false in En.
-      assert (escaped_path (mkUrl sc (replace_first hp v_host h) (pp ++ decode ts') [] (if is_nil tq then qy else tq))
-              = pp ++ render ts') as HE.
-      { unfold escaped_path. cbn [u_rawpath u_path is_nil negb andb].
-        assert (beq (pp ++ decode ts') [42] = false) as ->.
-        { apply beq_neq. intros E. rewrite E in Hlax. discriminate Hlax. }
-        exact Hesc'. }
-      rewrite (url_string_shape sc _ _ _ _ (pp ++ render ts')); auto.
-      intros E0. apply En. apply app_eq_nil in E0 as [-> E0].
-      destruct ts' as [|t ts']; [reflexivity|]. destruct t; discriminate E0.
-  Qed.
-
   (* a template without $path: the target as written, the request URI is not included *)
   Lemma location_static path :
     has_suffix hp v_path = false -> plain path = true -> no_dollar path = true ->
@@ -589,12 +570,14 @@ Definition t_slash : target :=
   mkTarget 0 (bs "https") v_host (47 :: v_path) [] [] [] 301%Z.       (* https://$host/$path *)
 Definition q_enc_slash : request := mkReq ex_host (bs "/a/b") (bs "/a%2Fb") [] [] false.
 
+(* before fix e4368b6 (route/target.go: RawPath = "$path" in the glued-to-host branch) *)
 Lemma host_adjacent_path_decoded_refuted :
   exists t wire q, tmpl_dom t = true /\ req_dom t wire q = true
     /\ set_path wire = Some (q_path q, q_rawpath q)
-    /\ url_string (build_redirect_url t q) = bs "https://foo.com/a/b"
+    /\ url_string (build_redirect_url_unrepaired t q) = bs "https://foo.com/a/b"
     /\ expected_location t wire q = bs "https://foo.com/a%2Fb"
-    /\ region_adjacent_raw t q = true.
+    /\ region_adjacent_raw t q = true
+    /\ url_string (build_redirect_url t q) = bs "https://foo.com/a%2Fb".
 Proof. exists t_adjacent, (bs "/a%2Fb"), q_enc_slash. vm_compute. repeat split; reflexivity. Qed.
 
 (* the same request through the form with a slash keeps %2F *)
@@ -646,60 +629,26 @@ Proof. vm_compute. repeat split; reflexivity. Qed.
 (* ------------------------------------------------------------------ *)
 (** * the host loop *)
 Definition is_redirect (t : target) : bool := negb (t_code t =? 0)%Z.
-Definition last_write (ws : list (nat * url)) : option (nat * url) :=
-  match rev ws with [] => None | w :: _ => Some w end.
-
-(* the last write of a Lookup that returns a redirect target is that target's own URL *)
-Lemma lookup_loop_last_write q : forall cands cur t ws,
-  lookup_loop q cands cur = (Some t, ws) -> is_redirect t = true ->
-  last_write ws = Some (t_id t, build_redirect_url t q) \/ (ws = [] /\ cur = Some t).
+(* what Lookup hands to ServeHTTP for a redirect target is the URL built from THIS request *)
+Lemma lookup_loop_own_url q : forall cands t ou,
+  lookup_loop q cands None = Some (t, ou) -> is_redirect t = true -> ou = Some (build_redirect_url t q).
 Proof.
-  induction cands as [|c cands IH]; intros cur t ws H Hr.
-  - cbn in H. inversion H; subst. now right.
-  - destruct c as [t0|]; cbn [lookup_loop] in H.
-    + destruct (t_code t0 =? 0)%Z eqn:E0.
-      * inversion H; subst. unfold is_redirect in Hr. rewrite E0 in Hr. discriminate.
-      * destruct (is_self (build_redirect_url t0 q) q).
-        -- destruct (lookup_loop q cands None) as [res ws'] eqn:EL. inversion H; subst res ws.
-           destruct (IH _ _ _ EL Hr) as [Hl|[-> Hc]]; [|discriminate Hc].
-           left. unfold last_write in *. cbn [rev]. destruct (rev ws') as [|w r']; [discriminate|]. exact Hl.
-        -- inversion H; subst. left. reflexivity.
-    + destruct (IH _ _ _ H Hr) as [Hl|[-> Hc]]; [now left|discriminate].
-Qed.
-
-Lemma store_get_last st ws id u : last_write ws = Some (id, u) -> store_get (store_apply st ws) id = Some u.
-Proof.
-  unfold last_write, store_apply. destruct (rev ws) as [|[k v] r]; [discriminate|].
-  intros H. inversion H; subst. cbn [app store_get]. now rewrite Nat.eqb_refl.
-Qed.
-
-Lemma lookup_own_url q cands t ws st : lookup q cands = (Some t, ws) -> is_redirect t = true ->
-  store_get (store_apply st ws) (t_id t) = Some (build_redirect_url t q).
-Proof.
-  intros H Hr. destruct (lookup_loop_last_write q cands None t ws H Hr) as [Hl|[_ Hc]]; [|discriminate].
-  now apply store_get_last.
-Qed.
-
-(* a request handled alone is answered from the request alone: the previous content of
-   the shared targets is irrelevant *)
-Lemma handle_store_irrelevant q cands st : fst (handle q cands st) = fst (handle q cands []).
-Proof.
-  unfold handle. destruct (lookup q cands) as [chosen ws] eqn:EL. cbn [fst].
-  destruct chosen as [t|]; [|reflexivity]. unfold serve.
-  destruct (t_code t =? 0)%Z eqn:E0; [reflexivity|].
-  assert (is_redirect t = true) as Hr by (unfold is_redirect; now rewrite E0).
-  now rewrite !(lookup_own_url q cands t ws _ EL Hr).
+  induction cands as [|c cands IH]; intros t ou H Hr; [discriminate H|].
+  destruct c as [t0|]; cbn [lookup_loop] in H; [|now apply IH].
+  destruct (t_code t0 =? 0)%Z eqn:E0.
+  - inversion H; subst. unfold is_redirect in Hr. rewrite E0 in Hr. discriminate.
+  - destruct (is_self (build_redirect_url t0 q) q); [now apply IH|]. inversion H; subst. reflexivity.
 Qed.
 
 (* the redirect branch never reaches the upstream transport *)
-Lemma no_upstream_on_redirect q cands st t ws :
-  lookup q cands = (Some t, ws) -> is_redirect t = true ->
-  upstream_calls (fst (handle q cands st)) = O
+Lemma no_upstream_on_redirect q cands t ou :
+  lookup q cands = Some (t, ou) -> is_redirect t = true ->
+  upstream_calls (handle q cands) = O
   /\ (code_ok (t_code t) = true ->
-      fst (handle q cands st) = RRedirect (t_code t) (hex_escape_non_ascii (url_string (build_redirect_url t q)))).
+      handle q cands = RRedirect (t_code t) (hex_escape_non_ascii (url_string (build_redirect_url t q)))).
 Proof.
-  intros EL Hr. unfold handle. rewrite EL. cbn [fst]. unfold serve.
-  rewrite (lookup_own_url q cands t ws st EL Hr). unfold is_redirect in Hr. apply negb_true_iff in Hr. rewrite Hr.
+  intros EL Hr. unfold handle. rewrite EL. unfold serve.
+  rewrite (lookup_loop_own_url q cands t ou EL Hr). unfold is_redirect in Hr. apply negb_true_iff in Hr. rewrite Hr.
   split.
   - destruct ((t_code t <? 100)%Z || (t_code t >? 999)%Z); reflexivity.
   - intros Hc. unfold code_ok in Hc. apply andb_true_iff in Hc as [H1 H2]. apply Z.leb_le in H1, H2.
@@ -707,11 +656,11 @@ Proof.
     apply orb_true_iff in E as [E|E]; [apply Z.ltb_lt in E; lia|]. rewrite Z.gtb_ltb in E. apply Z.ltb_lt in E. lia.
 Qed.
 Example no_upstream_nonvacuous :
-  fst (handle q_enc_slash [Some t_slash] []) = RRedirect 301%Z (bs "https://foo.com/a%2Fb").
-Proof. vm_compute. reflexivity. Qed.
+  handle q_enc_slash [Some t_slash] = RRedirect 301%Z (bs "https://foo.com/a%2Fb")
+  /\ handle q_enc_slash [Some t_adjacent] = RRedirect 301%Z (bs "https://foo.com/a%2Fb").
+Proof. vm_compute. split; reflexivity. Qed.
 
-(* the loop against the reference: the same host answers, unless the loop runs out of hosts
-   while holding a skipped redirect *)
+(* the loop against the reference *)
 Fixpoint ref_lookup_hdr (q : request) (cands : list (option target)) : option target :=
   match cands with
   | [] => None
@@ -720,13 +669,13 @@ Fixpoint ref_lookup_hdr (q : request) (cands : list (option target)) : option ta
       if (t_code t =? 0)%Z then Some t
       else if is_self (build_redirect_url t q) q then ref_lookup_hdr q r else Some t
   end.
-Lemma lookup_loop_ref q : forall cands, fst (lookup_loop q cands None) = ref_lookup_hdr q cands.
+Definition chosen_target (c : chosen) : option target := option_map fst c.
+Lemma lookup_loop_ref q : forall cands, chosen_target (lookup_loop q cands None) = ref_lookup_hdr q cands.
 Proof.
   induction cands as [|c cands IH]; [reflexivity|].
   destruct c as [t|]; cbn [lookup_loop ref_lookup_hdr].
   - destruct (t_code t =? 0)%Z; [reflexivity|].
-    destruct (is_self (build_redirect_url t q) q); [|reflexivity].
-    destruct (lookup_loop q cands None) as [res ws]. exact IH.
+    destruct (is_self (build_redirect_url t q) q); [exact IH|reflexivity].
   - exact IH.
 Qed.
 Lemma ref_lookup_hdr_not_self q : forall cands t, ref_lookup_hdr q cands = Some t -> is_redirect t = true ->
@@ -750,11 +699,11 @@ Qed.
 (* Lookup answers with the first host whose route does not point back at the request's own
    scheme (reported by a proxy, else the connection's), host and path; with none when there is
    no such host *)
-Lemma self_redirect_skipped q cands : fst (lookup q cands) = ref_lookup q cands.
+Lemma self_redirect_skipped q cands : chosen_target (lookup q cands) = ref_lookup q cands.
 Proof. unfold lookup. rewrite lookup_loop_ref. apply ref_lookup_hdr_eq. Qed.
 (* ... so it never returns a redirect that points back at the request *)
 Lemma self_redirect_never_returned q cands t :
-  fst (lookup q cands) = Some t -> is_redirect t = true -> points_back (build_redirect_url t q) q = false.
+  chosen_target (lookup q cands) = Some t -> is_redirect t = true -> points_back (build_redirect_url t q) q = false.
 Proof. unfold lookup. rewrite lookup_loop_ref, <- is_self_points_back. apply ref_lookup_hdr_not_self. Qed.
 
 Definition t_back : target := mkTarget 0 (bs "http") (bs "foo.com") (47 :: v_path) [] [] [] 301%Z.  (* http://foo.com/$path *)
@@ -765,7 +714,7 @@ Definition q_x (xfp : str) : request := mkReq (bs "foo.com") (bs "/x") [] [] xfp
 Lemma self_redirect_last_host_refuted :
   exists q cands t, fst (lookup_unrepaired q cands) = Some t /\ ref_lookup q cands = None
     /\ points_back (build_redirect_url t q) q = true
-    /\ fst (lookup q cands) = None.
+    /\ lookup q cands = None.
 Proof. exists (q_x (bs "http")), [Some t_back], t_back. vm_compute. repeat split; reflexivity. Qed.
 
 (* before fix bcdacf0 (route/table.go: the scheme of a direct request is the connection's) *)
@@ -773,53 +722,96 @@ Lemma self_redirect_without_xfp_refuted :
   exists q cands, q_xfp q = [] /\ ref_lookup q cands = Some t_upstream
     /\ fst (lookup_hdr_only q cands) = Some t_back
     /\ points_back (build_redirect_url t_back q) q = true
-    /\ fst (lookup q cands) = Some t_upstream.
+    /\ chosen_target (lookup q cands) = Some t_upstream.
 Proof. exists (q_x []), [Some t_back; Some t_upstream]. vm_compute. repeat split; reflexivity. Qed.
 Example self_redirect_skipped_nonvacuous :
-  fst (lookup (q_x (bs "http")) [Some t_back; Some t_upstream]) = Some t_upstream
-  /\ fst (lookup (q_x []) [Some t_back; Some t_upstream]) = Some t_upstream
-  /\ fst (lookup (q_x (bs "https")) [Some t_back; Some t_upstream]) = Some t_back
-  /\ fst (lookup (q_x (bs "http")) [Some t_back]) = None.
+  chosen_target (lookup (q_x (bs "http")) [Some t_back; Some t_upstream]) = Some t_upstream
+  /\ chosen_target (lookup (q_x []) [Some t_back; Some t_upstream]) = Some t_upstream
+  /\ chosen_target (lookup (q_x (bs "https")) [Some t_back; Some t_upstream]) = Some t_back
+  /\ lookup (q_x (bs "http")) [Some t_back] = None.
+Proof. vm_compute. repeat split; reflexivity. Qed.
+
+(* the answer does not depend on the header fields, except through X-Forwarded-Proto (and Host,
+   which is the [host] argument): in particular Upgrade / Accept / Connection are irrelevant *)
+Lemma headers_irrelevant hs hs' host path rawpath query tls cands :
+  header_get hs h_xfp = header_get hs' h_xfp ->
+  handle_full hs host path rawpath query tls cands = handle_full hs' host path rawpath query tls cands.
+Proof. intros H. unfold handle_full, request_of, serve_hdr. now rewrite H. Qed.
+(* ... and a redirect route is answered with its 3xx and Location whatever they are *)
+Lemma redirect_whatever_headers hs host path rawpath query tls cands t ou :
+  lookup (request_of hs host path rawpath query tls) cands = Some (t, ou) -> is_redirect t = true ->
+  code_ok (t_code t) = true ->
+  handle_full hs host path rawpath query tls cands
+  = RRedirect (t_code t) (hex_escape_non_ascii (url_string (build_redirect_url t (request_of hs host path rawpath query tls)))).
+Proof.
+  intros EL Hr Hc. unfold handle_full, serve_hdr.
+  destruct (no_upstream_on_redirect _ cands t ou EL Hr) as [_ H]. unfold handle in H. now apply H.
+Qed.
+Definition hs_ws : headers := [(bs "Upgrade", bs "websocket"); (bs "Connection", bs "Upgrade"); (bs "Accept", bs "text/event-stream")].
+Example headers_irrelevant_nonvacuous :
+  handle_full hs_ws (bs "foo.com") (bs "/a/b") (bs "/a%2Fb") [] false [Some t_slash]
+  = RRedirect 301%Z (bs "https://foo.com/a%2Fb")
+  /\ header_get hs_ws h_xfp = header_get [] h_xfp
+  /\ header_get [(bs "x-forwarded-proto", bs "https")] h_xfp = bs "https".
 Proof. vm_compute. repeat split; reflexivity. Qed.
 
 (* ------------------------------------------------------------------ *)
 (** * simultaneous requests *)
+(* the answer of request i on its own: a function of that request (and of the table) only *)
 Definition own (reqs : list (request * list (option target))) (i : nat) : response :=
   match nth_error reqs i with
-  | Some (q, cands) => fst (handle q cands [])
+  | Some (q, cands) => handle q cands
   | None => RNoRoute
   end.
-Definition serial (order : list nat) : list action := flat_map (fun i => [ALookup i; AServe i]) order.
+Definition all_own (reqs : list (request * list (option target))) (out : list (nat * response)) : Prop :=
+  Forall (fun rr => snd rr = own reqs (fst rr)) out.
+Definition chosen_inv (reqs : list (request * list (option target))) (w : world) : Prop :=
+  (forall r c, chosen_get (w_chosen w) r = Some c ->
+     exists q cands, nth_error reqs r = Some (q, cands) /\ c = lookup q cands)
+  /\ all_own reqs (w_out w).
 
-(* every schedule in which each request's Lookup is immediately followed by its serve step
-   (any order, any repetition): each response is the request's own *)
-Lemma serial_schedule_own reqs : forall order w,
-  Forall (fun i => (i < length reqs)%nat) order ->
-  w_out (run_sched reqs (serial order) w) = rev (map (fun i => (i, own reqs i)) order) ++ w_out w.
+Lemma step_inv reqs w a : chosen_inv reqs w -> chosen_inv reqs (step reqs w a).
 Proof.
-  induction order as [|i order IH]; intros w Hv; [reflexivity|].
-  inversion Hv as [|? ? Hi Hv']; subst.
-  change (serial (i :: order)) with ([ALookup i; AServe i] ++ serial order).
-  unfold run_sched at 1. rewrite fold_left_app.
-  change (fold_left (step reqs) (serial order) ?x) with (run_sched reqs (serial order) x).
-  rewrite IH by exact Hv'. cbn [map rev]. rewrite <- app_assoc. f_equal. cbn [fold_left].
-  unfold own. destruct (nth_error reqs i) as [[q cands]|] eqn:En; [|apply nth_error_None in En; lia].
-  cbn [step]. rewrite En. destruct (lookup q cands) as [chosen ws] eqn:EL.
-  cbn [step w_chosen chosen_get w_store w_out]. rewrite Nat.eqb_refl. cbn [w_store w_chosen w_out app].
-  f_equal. f_equal. rewrite <- (handle_store_irrelevant q cands (w_store w)). unfold handle. now rewrite EL.
+  intros [Hc Ho]. destruct a as [r|r]; cbn [step].
+  - destruct (nth_error reqs r) as [[q cands]|] eqn:En; [|split; assumption].
+    split; [|exact Ho]. cbn [w_chosen]. intros r' c H. cbn [chosen_get] in H.
+    destruct (Nat.eqb r r') eqn:E.
+    + apply Nat.eqb_eq in E. subst r'. inversion H; subst c. now exists q, cands.
+    + now apply Hc.
+  - destruct (chosen_get (w_chosen w) r) as [c|] eqn:Eg; [|split; assumption].
+    split; [exact Hc|]. cbn [w_out]. constructor; [|exact Ho].
+    cbn [fst snd]. destruct (Hc r c Eg) as (q & cands & En & ->). unfold own. rewrite En. reflexivity.
+Qed.
+Lemma run_inv reqs : forall sched w, chosen_inv reqs w -> chosen_inv reqs (run_sched reqs sched w).
+Proof.
+  induction sched as [|a sched IH]; intros w H; [exact H|].
+  unfold run_sched. cbn [fold_left]. apply IH. now apply step_inv.
+Qed.
+(* EVERY interleaving of the Lookup and serve steps of ANY number of requests: each response
+   is the request's own *)
+Lemma every_schedule_own reqs sched : all_own reqs (w_out (run_sched reqs sched world0)).
+Proof.
+  apply (run_inv reqs sched world0). split; [intros r c H; discriminate H | constructor].
 Qed.
 
-(* Lookup A, Lookup B, serve A: A is answered with B's Location *)
 Definition q_from (p : string) : request := mkReq (bs "foo.com") (bs p) [] [] [] false.
+Definition two_reqs := [(q_from "/from-A", [Some t_adjacent]); (q_from "/from-B", [Some t_adjacent])].
+Example every_schedule_own_nonvacuous :
+  w_out (run_sched two_reqs [ALookup 0; ALookup 1; AServe 0; AServe 1] world0)
+  = [(1%nat, RRedirect 301%Z (bs "https://foo.com/from-B")); (0%nat, RRedirect 301%Z (bs "https://foo.com/from-A"))].
+Proof. vm_compute. reflexivity. Qed.
+
+(* before fix ddf101c (route/table.go: Lookup builds the URL on a copy of the target) the URL
+   sat in the RedirectURL field of the shared target: Lookup A, Lookup B, serve A answered A
+   with B's Location *)
 Lemma redirect_cross_talk_refuted :
   exists reqs sched,
     own reqs 0 = RRedirect 301%Z (bs "https://foo.com/from-A")
     /\ own reqs 1 = RRedirect 301%Z (bs "https://foo.com/from-B")
-    /\ w_out (run_sched reqs sched world0)
+    /\ ws_out (run_sched_shared reqs sched world_shared0)
        = [(1%nat, RRedirect 301%Z (bs "https://foo.com/from-B")); (0%nat, RRedirect 301%Z (bs "https://foo.com/from-B"))].
 Proof.
-  exists [(q_from "/from-A", [Some t_adjacent]); (q_from "/from-B", [Some t_adjacent])],
-         [ALookup 0; ALookup 1; AServe 0; AServe 1].
+  exists two_reqs, [ALookup 0; ALookup 1; AServe 0; AServe 1].
   vm_compute. repeat split; reflexivity.
 Qed.
 
@@ -865,13 +857,12 @@ Qed.
 Theorem location_spec t wire q :
   tmpl_dom t = true -> req_dom t wire q = true ->
   set_path wire = Some (q_path q, q_rawpath q) ->
-  region_adjacent_raw t q = false ->
   url_string (build_redirect_url t q) = expected_location t wire q.
 Proof.
   destruct t as [id sc hp0 path tq st pp code], q as [h d r qy xfp tls].
-  unfold tmpl_dom, req_dom, region_adjacent_raw, expected_location, path_pat, host_pat, adjacent.
+  unfold tmpl_dom, req_dom, expected_location, path_pat, host_pat, adjacent.
   cbn [t_scheme t_host t_path t_query t_strip t_prepend q_host q_path q_rawpath q_query].
-  intros HT HR Hparse Hreg.
+  intros HT HR Hparse.
   repeat match type of HT with _ && _ = true => let H := fresh "HT" in apply andb_true_iff in HT as [HT H] end.
   repeat match type of HR with _ && _ = true => let H := fresh "HR" in apply andb_true_iff in HR as [HR H] end.
   destruct (tokens wire) as [ts|] eqn:Etok; [|discriminate].
@@ -884,15 +875,16 @@ Proof.
     assert (firstn (length (hp ++ v_path) - length v_path) (hp ++ v_path) = hp) as Hf
       by (rewrite app_length, Nat.add_sub; apply firstn_len_app).
     rewrite Hf in *. apply is_nil_true in HT0. subst path.
-    cbn [andb] in Hreg. apply negb_false_iff, is_nil_true in Hreg.
-    apply (location_adjacent_on_domain id sc hp tq st pp code ts h qy xfp tls d r); auto.
+    rewrite build_adjacent.
+    apply (location_built sc hp [] [] tq st pp ts h qy xfp tls d r); auto.
   - destruct (index path v_path) as [i|] eqn:Ei.
     + assert (Hsp := index_spec v_path path i Ei).
       remember (firstn i path) as pre0 eqn:Hpre0. remember (skipn (i + length v_path) path) as post eqn:Hpost0.
       destruct (drop_one_slash_spec pre0) as [Hp0 Hends].
       repeat match type of HT0 with _ && _ = true => let H := fresh "HP" in apply andb_true_iff in HT0 as [HT0 H] end.
       rewrite Hsp. rewrite Hp0 at 1. rewrite <- app_assoc.
-      apply (location_shape id sc hp0 (drop_one_slash pre0) post tq st pp (ends_slash pre0) code ts h qy xfp tls d r); auto.
+      rewrite build_shape; auto.
+      apply (location_built sc hp0 (drop_one_slash pre0) post tq st pp ts h qy xfp tls d r); auto.
     + apply andb_true_iff in HT0 as [HP1 HP2].
       apply (location_static id sc hp0 tq st pp code h qy xfp tls d r); auto.
 Qed.
